@@ -101,8 +101,23 @@ def base_sidd():
     return _cache[path].copy()
 
 
-def small_sidd(rows, cols, pixel_type='MONO8I'):
-    s = base_sidd()
+def versioned_sidd(version):
+    """a SIDD structure of version 1, 2 or 3 made by sarpy's own structure creation from a small synthetic SICD"""
+    key = ('sidd-version', version)
+    if key not in _cache:
+        from sarpy.io.complex.base import FlatSICDReader
+        from sarpy.processing.ortho_rectify import NearestNeighborMethod, PGProjection
+        from sarpy.processing.sidd import sidd_structure_creation as ssc
+        meta = small_sicd(30, 20)
+        rd = FlatSICDReader(meta, numpy.ones((30, 20), dtype='complex64'))
+        oh = NearestNeighborMethod(rd, index=0, proj_helper=PGProjection(meta))
+        f = {1: ssc.create_sidd_structure_v1, 2: ssc.create_sidd_structure_v2, 3: ssc.create_sidd_structure_v3}[version]
+        _cache[key] = f(oh, oh.get_full_ortho_bounds(), 'Detected Image', 'MONO8I')
+    return _cache[key].copy()
+
+
+def small_sidd(rows, cols, pixel_type='MONO8I', version=None):
+    s = base_sidd() if version is None else versioned_sidd(version)
     s.Measurement.PixelFootprint.Row = rows
     s.Measurement.PixelFootprint.Col = cols
     s.Display.PixelType = pixel_type
@@ -119,7 +134,7 @@ def sidd_pixels(rng, rows, cols, pixel_type):
     raise ValueError(pixel_type)
 
 
-def write_sidd(metas, datas, target, tmpdir, row_limit=None, sicd_meta=None, name='sidd.nitf', chunk_plans=None):
+def write_sidd(metas, datas, target, tmpdir, row_limit=None, sicd_meta=None, name='sidd.nitf', chunk_plans=None, order=None):
     from sarpy.io.product.sidd import SIDDWriter, SIDDWritingDetails
     logging.disable(logging.CRITICAL)
     det = SIDDWritingDetails([m.copy() for m in metas], sicd_meta, row_limit=row_limit)
@@ -128,10 +143,19 @@ def write_sidd(metas, datas, target, tmpdir, row_limit=None, sicd_meta=None, nam
         os.remove(path)
     fo = path if target == 'path' else io.BytesIO()
     w = SIDDWriter(fo, sidd_writing_details=det, check_existence=False)
+    steps = []
     for i, d in enumerate(datas):
         plan = (chunk_plans or {}).get(i) or [(0, d.shape[0])]
-        for a, b in plan:
-            w.write(d[a:b], start_indices=(a, 0) if d.ndim == 2 else (a, 0, 0), index=i)
+        steps += [(i, a, b) for a, b in plan]
+    if order is not None:          # interleave the chunks of the images / flush in between: [(image, a, b) | 'flush']
+        steps = order
+    for st in steps:
+        if st == 'flush':
+            w.flush()
+            continue
+        i, a, b = st
+        d = datas[i]
+        w.write(d[a:b], start_indices=(a, 0) if d.ndim == 2 else (a, 0, 0), index=i)
     w.close()
     out = open(path, 'rb').read() if target == 'path' else fo.getvalue()
     return out, det
